@@ -3,6 +3,7 @@ package main
 import (
 	"fmt"
 	"go/token"
+	"go/types"
 	"strings"
 
 	"golang.org/x/tools/go/ssa"
@@ -38,12 +39,13 @@ func (e *Engine) rootsAtParam(v ssa.Value, p *ssa.Parameter) bool {
 }
 
 func runC11(e *Engine, r *Report, tier string) {
-	r.Explanation = "C11, structural clauses of the share-transfer routine (located as the precompile function that rewrites delegations). Decided: R1 alias guard — sender == recipient is refused (or returns) before anything is read or written, otherwise the second record would be written from a stale copy; R2 the amount subtracted from the sender's shares and added to the recipient's is the same value, and `sender shares >= amount` (else error) dominates, and the sender's delegation is removed only on a zero test of the record's exact remaining Shares (not a truncated view); R3 no validator-mutating staking API is reachable; R4 reward withdrawal of the sender precedes every delegation write, on the remove branch reference-count decrement and starting-info delete follow on every success path, for a new recipient period increment precedes and reference-count increment + starting-info set follow, and every starting-info Stake is recomputed as validator.TokensFromSharesTruncated(<shares>) — never share/token arithmetic on the old stake; R5 the receiving-redelegation refusal dominates all writes. Not decided: SDK invariants after arbitrary histories, arithmetic inside x/staking and x/distribution."
+	r.Explanation = "C11, structural clauses of the share-transfer routine (located as the precompile function that rewrites delegations). Decided: R1 alias guard — sender == recipient is refused (or returns) before anything is read or written, otherwise the second record would be written from a stale copy; R2 the amount subtracted from the sender's shares and added to the recipient's is the same value, and `sender shares >= amount` (else error) dominates, and the sender's delegation is removed only on a zero test of the record's exact remaining Shares (not a truncated view); R3 no validator-mutating staking API is reachable; R4 reward withdrawal of the sender precedes every delegation write, on the remove branch reference-count decrement and starting-info delete follow on every success path, for a new recipient period increment precedes and reference-count increment + starting-info set follow, and every starting-info Stake is recomputed as validator.TokensFromSharesTruncated(<shares>) — never share/token arithmetic on the old stake; R5 the receiving-redelegation refusal dominates all writes; R6 the amount handed to the routine is refused unless it is > 0 — by the routine or by Validate() of the argument struct each call site takes it from (Validate runs inside ParseMethodArgs, C20.R3): a zero transfer would create a zero-share delegation and pass any allowance. Not decided: SDK invariants after arbitrary histories, arithmetic inside x/staking and x/distribution."
 	r.Rule("R1", "sender == recipient refused before any read/write", 1, "")
 	r.Rule("R2", "same amount subtracted and added; sufficiency check dominates; removal only at exactly zero remaining shares", 3, "")
 	r.Rule("R3", "no validator-mutating staking API reachable from the routine", 1, "")
 	r.Rule("R4", "rewards withdrawn first; F1 bookkeeping paired per branch; stake recomputed from shares", 6, "")
 	r.Rule("R5", "receiving-redelegation refusal dominates all writes", 1, "")
+	r.Rule("R6", "only a positive amount of shares reaches the transfer routine (refused in the routine or in Validate() of the argument struct)", 2, "call sites of the routine")
 
 	fn := e.shareTransferRoutine()
 	if fn == nil {
@@ -466,6 +468,170 @@ func runC11(e *Engine, r *Report, tier string) {
 		}
 	})
 	r.Check(okRed, "R5", key, e.Pos(fn.Pos()), "`has receiving redelegation` -> error dominates withdrawals and delegation writes", "shares can be transferred while the sender has an incoming redelegation (slashing of the source validator could no longer reach them)")
+
+	// ---------- R6: only a positive amount of shares is transferred ----------
+	// With zero shares the routine would still create a delegation record (Shares = 0) and starting info for a new recipient
+	// and pass every allowance (0 <= allowance). The amount handed to the routine must therefore be refused unless > 0: in the
+	// routine itself, or in Validate() of the argument struct it is taken from (run by ParseMethodArgs, C20.R3).
+	var sharesPar *ssa.Parameter
+	for _, p := range fn.Params {
+		if strings.HasSuffix(p.Type().String(), "big.Int") {
+			sharesPar = p
+		}
+	}
+	if sharesPar == nil {
+		r.Fail("R6", key+" amount", e.Pos(fn.Pos()), "UNRESOLVED-ANCHOR: the routine has no *big.Int amount parameter")
+		return
+	}
+	if e.positivityGuard(fn, func(v ssa.Value) bool { return stripConv(v) == ssa.Value(sharesPar) }, 0) {
+		r.Ok("R6", key+" amount", e.Pos(fn.Pos()), "the routine refuses a non-positive amount itself")
+		return
+	}
+	pidx := paramIndex(sharesPar)
+	css := e.CallSites(fn)
+	if len(css) == 0 {
+		r.Fail("R6", key+" amount", e.Pos(fn.Pos()), "UNRESOLVED-ANCHOR: no call site of the routine")
+	}
+	for _, cs := range css {
+		ck := e.CanonFnKey(rootFn(cs.Caller)) + " -> " + fn.Name() + " amount"
+		args := cs.Call.Common().Args
+		if pidx >= len(args) {
+			r.Fail("R6", ck, e.InstrPos(cs.Call), "UNRESOLVED-ANCHOR: amount argument not found")
+			continue
+		}
+		// the amount is a field of a decoded argument struct
+		ld, _ := stripConv(args[pidx]).(*ssa.UnOp)
+		var fa *ssa.FieldAddr
+		if ld != nil {
+			fa, _ = ld.X.(*ssa.FieldAddr)
+		}
+		if fa == nil {
+			r.Fail("R6", ck, e.InstrPos(cs.Call), "the transferred amount is neither tested for > 0 in the routine nor a field of a validated argument struct")
+			continue
+		}
+		st := fieldStructOf(fa)
+		var named types.Type = fa.X.Type()
+		if pt, ok := named.Underlying().(*types.Pointer); ok {
+			named = pt.Elem()
+		}
+		var validate *ssa.Function
+		for _, cand := range e.Funcs {
+			if cand.Name() != "Validate" || cand.Signature.Recv() == nil {
+				continue
+			}
+			rt := cand.Signature.Recv().Type()
+			if pt, ok := rt.Underlying().(*types.Pointer); ok {
+				rt = pt.Elem()
+			}
+			if types.Identical(rt, named) {
+				validate = cand
+			}
+		}
+		if validate == nil || st == nil {
+			r.Fail("R6", ck, e.InstrPos(cs.Call), "UNRESOLVED-ANCHOR: no Validate() method for the argument struct "+named.String())
+			continue
+		}
+		field := fa.Field
+		isField := func(v ssa.Value) bool {
+			u, ok := stripConv(v).(*ssa.UnOp)
+			if !ok {
+				return false
+			}
+			f2, ok := u.X.(*ssa.FieldAddr)
+			return ok && f2.Field == field && fieldStructOf(f2) == st
+		}
+		if e.positivityGuard(validate, isField, 0) {
+			r.Ok("R6", ck, e.InstrPos(cs.Call), e.FnKey(validate)+" refuses an amount <= 0")
+		} else {
+			r.Fail("R6", ck, e.InstrPos(cs.Call), "a transfer of zero (or negative) shares is not refused: "+e.FnKey(validate)+" has no failing branch for `"+st.Field(field).Name()+" <= 0` and the routine does not test its amount either; a zero transfer creates a zero-share delegation for a new recipient and passes any allowance")
+		}
+	}
+}
+
+// positivityGuard: function g refuses (clean failing branch) a value selected by isVal unless it is > 0. Recognised tests:
+// v.Sign() <= 0 / < 1 / != 1, v.Cmp(zero) <= 0, !v.IsPositive(), and the same test inside a helper that is handed v and
+// whose error g propagates.
+func (e *Engine) positivityGuard(g *ssa.Function, isVal func(ssa.Value) bool, depth int) bool {
+	found := false
+	allInstrs(g, func(i ssa.Instruction) {
+		iff, ok := i.(*ssa.If)
+		if !ok || found {
+			return
+		}
+		for _, pol := range []bool{true, false} {
+			ci, ok := NormCond(Guard{Cond: iff.Cond, Pol: pol, If: iff})
+			if !ok {
+				continue
+			}
+			nonPos := false
+			switch {
+			case ci.Call == nil && ci.X != nil && ci.Y != nil:
+				c, isC := stripConv(ci.X).(*ssa.Call)
+				k, isK := constInt(ci.Y)
+				if isC && isK && (callName(c) == "Sign" || callName(c) == "Cmp") {
+					rv := callArgs(c)
+					if len(rv) > 0 && isVal(rv[0]) {
+						if callName(c) == "Cmp" && !(len(rv) > 1 && isZeroBig(rv[1])) {
+							break
+						}
+						switch {
+						case ci.Op == "<=" && k == 0, ci.Op == "<" && k == 1, ci.Op == "!=" && k == 1:
+							nonPos = true
+						}
+					}
+				}
+			case ci.Call != nil && ci.Op == "!call:IsPositive":
+				rv := callArgs(ci.Call)
+				if len(rv) > 0 && isVal(rv[0]) {
+					nonPos = true
+				}
+			}
+			if nonPos && BranchFailsClean(iff, pol, nil) {
+				found = true
+			}
+		}
+	})
+	if found || depth > 0 {
+		return found
+	}
+	// helper form
+	allCalls(g, func(c ssa.CallInstruction) {
+		if found {
+			return
+		}
+		for ai, a := range c.Common().Args {
+			if !isVal(a) {
+				continue
+			}
+			for _, h := range e.calleesOf(c) {
+				if h.Blocks == nil || ai >= len(h.Params) || c.Common().IsInvoke() {
+					continue
+				}
+				hp := h.Params[ai]
+				if ok, _ := errorHandled(c); ok && e.positivityGuard(h, func(v ssa.Value) bool { return stripConv(v) == ssa.Value(hp) }, depth+1) {
+					found = true
+				}
+			}
+		}
+	})
+	return found
+}
+
+// isZeroBig: big.NewInt(0) / a package-level zero / new(big.Int).
+func isZeroBig(v ssa.Value) bool {
+	v = stripConv(v)
+	if c, ok := v.(*ssa.Call); ok && callName(c) == "NewInt" {
+		as := c.Common().Args
+		if len(as) == 1 {
+			if k, ok := constInt(as[0]); ok && k == 0 {
+				return true
+			}
+		}
+	}
+	if a, ok := v.(*ssa.Alloc); ok && strings.HasSuffix(a.Type().String(), "big.Int") {
+		return true
+	}
+	return false
 }
 
 // exitsWithoutEffect: taking branch pol of iff leads to a return (any) or panic without executing an effect.
